@@ -7,7 +7,8 @@ From KV Require Import C09.Model C09.ProofsDecoder C09.ProofsTape.
 Import ListNotations.
 Local Open Scope Z_scope.
 
-(** the property's guard on the data: the slice lies inside the audio; [B] is any bound on the (sliced) length, the
+(** the guard on the data.  The slice is ANY pair of [usize] values (inside the audio, beyond it, inverted, empty:
+    both sounds clip it); [B] is any bound on the (sliced) length, the
     start position and the loop ends, and the iteration bound [fuel] of the model's loops exceeds it (and the length
     of the audio times [EP], the bound on consecutive empty packets, for the decoder's "decode until the frame shows
     up" loop).  Start positions beyond the end, empty
@@ -17,15 +18,15 @@ Definition wf_config {T : Type} {NT : Num T} (A : Type) (azero : A) (V P : Type)
   let n := num_frames (audio_source A azero audio) slice in
   let start := into_samples (g_start_pos g) sr in
   let lr := option_map (fun r => region_samples r sr n) (g_loop g) in
-  slice_wf A audio slice /\ Z.of_nat (length audio) < u64_max /\ 0 <= start /\ start < B /\ n <= B /\
+  slice_wf slice /\ Z.of_nat (length audio) < u64_max /\ 0 <= start /\ start < B /\ n <= B /\
   B < u64_max /\ B < Z.of_nat fuel /\ req_loop B lr /\ (need_fuel (length audio) EP <= fuel)%nat.
 
 (** the property's "non-negative playback rate": the initial rate and every value the rate parameter takes along
-    the history (at the end of each chunk and interpolated at each frame) is not NaN, not below zero and has a clear
-    sign bit *)
+    the history (at the end of each chunk and interpolated at each frame) is not NaN and not below zero (-0.0 is
+    a non-negative rate) *)
 Definition rates_nonneg {T : Type} {NT : Num T} {ND : NumDur T} (powf : T -> T -> T) (V P : Type)
     (g : settings T V P) (evs : list (event T V P)) : Prop :=
-  nsignneg (p_raw (param_new (g_rate g) n1)) = false /\ rates_ok powf V P (param_new (g_rate g) n1) evs.
+  nltb (p_raw (param_new (g_rate g) n1)) n0 = false /\ rates_ok powf V P (param_new (g_rate g) n1) evs.
 
 Section Main.
   Context {T : Type} {NT : Num T} {ND : NumDur T}.
@@ -108,7 +109,7 @@ Section Main.
     Proof.
       intros evs.
       destruct WF as (H1 & H2 & H3 & H4 & H5 & H6 & H7 & H8 & H9).
-      destruct (init_indep A azero fuel audio sr slice _ _ H1 EP H9 D dpos dseek d0 V silence identity P pcenter g
+      destruct (init_indep A azero fuel audio sr slice _ _ D dpos dseek d0 V silence identity P pcenter g
                            eq_refl eq_refl D' dpos' dseek' d0')
         as (w0 & w0' & Hw & Hw' & HP).
       exists w0, w0'. split; [exact Hw|]. split; [exact Hw'|].
@@ -125,7 +126,7 @@ Section RatesB.
   Variable powf : T -> T -> T.
   Variables V P : Type.
 
-  Definition rate_nonnegb (r : T) : bool := negb (nsignneg r) && negb (nisnan r) && negb (nltb r n0).
+  Definition rate_nonnegb (r : T) : bool := negb (nisnan r) && negb (nltb r n0).
   Fixpoint allk (f : Z -> bool) (k : nat) (i : Z) : bool :=
     match k with O => true | S k' => f i && allk f k' (i + 1) end.
   Fixpoint rates_okb (rate : param T T) (evs : list (event T V P)) : bool :=
@@ -136,7 +137,7 @@ Section RatesB.
     | EvProcess len dt i :: r =>
         match param_update powf T lerp rate (nmul dt (nofZ len)) i with
         | Ok (rate', _) =>
-            negb (nsignneg (p_raw rate')) && allk (fun k => rate_nonnegb (rate_at rate' k len)) (Z.to_nat len) 0
+            negb (nltb (p_raw rate') n0) && allk (fun k => rate_nonnegb (rate_at rate' k len)) (Z.to_nat len) 0
             && rates_okb rate' r
         | _ => true
         end
@@ -144,9 +145,8 @@ Section RatesB.
 
   Lemma rate_nonnegb_sound : forall r, rate_nonnegb r = true -> rate_nonneg r.
   Proof.
-    intros r H. unfold rate_nonnegb in H. apply andb_prop in H. destruct H as [H H3].
-    apply andb_prop in H. destruct H as [H1 H2]. unfold rate_nonneg.
-    destruct (nsignneg r), (nisnan r), (nltb r n0); try discriminate. repeat split.
+    intros r H. unfold rate_nonnegb in H. apply andb_prop in H. destruct H as [H2 H3]. unfold rate_nonneg.
+    destruct (nisnan r), (nltb r n0); try discriminate. repeat split.
   Qed.
   Lemma allk_sound : forall f k i, allk f k i = true -> forall j, i <= j < i + Z.of_nat k -> f j = true.
   Proof.
@@ -162,7 +162,7 @@ Section RatesB.
     - apply IH; exact H.
     - destruct (param_update powf T lerp rate (nmul dt (nofZ len)) i) as [[rate' f]| |]; try exact I.
       apply andb_prop in H. destruct H as [H H3]. apply andb_prop in H. destruct H as [H1 H2].
-      split; [destruct (nsignneg (p_raw rate')); [discriminate | reflexivity]|].
+      split; [destruct (nltb (p_raw rate') n0); [discriminate | reflexivity]|].
       split; [|apply IH; exact H3].
       intros k Hk. apply rate_nonnegb_sound. apply (allk_sound _ _ _ H2). lia.
   Qed.
